@@ -90,6 +90,8 @@ inductive Expr where
   | callv (f : Expr) (args : List Expr)
   | mcall (recv : Expr) (t : Ty) (name : String) (args : List Expr)
   | icall (recv : Expr) (name : String) (args : List Expr)
+  | mval (recv : Expr) (t : Ty) (name : String)          -- method value `x.M` (receiver bound now)
+  | imval (recv : Expr) (name : String)                  -- method value of an interface value
   | structLit (fs : List Expr)
   | arrLit (es : List Expr)
   | sliceLit (es : List Expr)
@@ -207,6 +209,7 @@ inductive Val where
   | slice (base : Option Ptr) (off len cap : Nat)
   | func (f : Option (FuncKind × Nat × Env × Nat))     -- kind, function / range-body id, captured environment, token (yield)
   | iface (d : Option (Ty × Val))
+  | bound (f : Nat) (recv : Val)                       -- method value: function id with its receiver
 deriving Repr, Inhabited
 
 /-- non-local completion of a statement -/
@@ -435,23 +438,40 @@ def findIdx {α : Type} (p : α → Bool) : List α → Nat → Option Nat
   | [], _ => none
   | a :: as, i => if p a then some i else findIdx p as (i + 1)
 
-/-- fields named `name` at exactly embedding depth `d` of struct type `id`: all paths -/
-def fieldPaths (P : Program) : Nat → Nat → String → List (List Nat)
+/-- one step of a selector path: into field `i` of a struct value, or through a pointer (embedded `*T`) -/
+inductive PStep where
+  | fld (i : Nat)
+  | deref
+deriving DecidableEq, Repr, Inhabited
+
+def isIface (P : Program) (id : Nat) : Bool :=
+  match P.types[id]? with
+  | some ⟨_, .iface _⟩ => true
+  | _ => false
+
+def ifaceMethods (P : Program) (id : Nat) : List String :=
+  match P.types[id]? with
+  | some ⟨_, .iface ms⟩ => ms
+  | _ => []
+
+/-- fields named `name` at exactly embedding depth `d` of struct type `id`: all paths (embedded `T` and `*T`) -/
+def fieldPaths (P : Program) : Nat → Nat → String → List (List PStep)
   | 0, id, name =>
     match findIdx (fun f => f.1 == name) (structFields P id) 0 with
-    | some i => [[i]]
+    | some i => [[.fld i]]
     | none => []
   | d+1, id, name =>
-    let rec go (fs : List (String × Ty × Bool)) (i : Nat) : List (List Nat) :=
+    let rec go (fs : List (String × Ty × Bool)) (i : Nat) : List (List PStep) :=
       match fs with
       | [] => []
-      | (_, .named id', true) :: rest => (fieldPaths P d id' name).map (i :: ·) ++ go rest (i + 1)
+      | (_, .named id', true) :: rest => (fieldPaths P d id' name).map (.fld i :: ·) ++ go rest (i + 1)
+      | (_, .ptr (.named id'), true) :: rest => (fieldPaths P d id' name).map (fun q => .fld i :: .deref :: q) ++ go rest (i + 1)
       | _ :: rest => go rest (i + 1)
     go (structFields P id) 0
 
 /-- Go's selector rule: the shallowest depth at which the name occurs; it must occur exactly once there -/
-def findField (P : Program) (id : Nat) (name : String) : Option (List Nat) :=
-  let rec go (fuel d : Nat) : Option (List Nat) :=
+def findField (P : Program) (id : Nat) (name : String) : Option (List PStep) :=
+  let rec go (fuel d : Nat) : Option (List PStep) :=
     match fuel with
     | 0 => none
     | fuel+1 =>
@@ -464,24 +484,35 @@ def findField (P : Program) (id : Nat) (name : String) : Option (List Nat) :=
 def ownMethod (P : Program) (id : Nat) (name : String) : Option MethodDecl :=
   P.methods.find? (fun m => m.tid = id && m.name == name)
 
-/-- methods named `name` at exactly embedding depth `d`: (path to the embedded receiver, declaration) -/
-def methodPaths (P : Program) : Nat → Nat → String → List (List Nat × MethodDecl)
+/-- what a method selector resolves to: a declared method, or dynamic dispatch on an embedded interface value -/
+inductive MFound where
+  | decl (m : MethodDecl)
+  | viaIface
+deriving Repr, Inhabited
+
+/-- methods named `name` at exactly embedding depth `d`: (path to the embedded receiver, what is found there) -/
+def methodPaths (P : Program) : Nat → Nat → String → List (List PStep × MFound)
   | 0, id, name =>
     match ownMethod P id name with
-    | some m => [([], m)]
+    | some m => [([], .decl m)]
     | none => []
   | d+1, id, name =>
-    let rec go (fs : List (String × Ty × Bool)) (i : Nat) : List (List Nat × MethodDecl) :=
+    let rec go (fs : List (String × Ty × Bool)) (i : Nat) : List (List PStep × MFound) :=
       match fs with
       | [] => []
-      | (_, .named id', true) :: rest => (methodPaths P d id' name).map (fun pm => (i :: pm.1, pm.2)) ++ go rest (i + 1)
+      | (_, .named id', true) :: rest =>
+        (if isIface P id' then
+           (if d = 0 && (ifaceMethods P id').contains name then [([PStep.fld i], MFound.viaIface)] else [])
+         else (methodPaths P d id' name).map (fun pm => (PStep.fld i :: pm.1, pm.2))) ++ go rest (i + 1)
+      | (_, .ptr (.named id'), true) :: rest =>
+        (methodPaths P d id' name).map (fun pm => (PStep.fld i :: PStep.deref :: pm.1, pm.2)) ++ go rest (i + 1)
       | _ :: rest => go rest (i + 1)
     go (structFields P id) 0
 
 /-- a field at a shallower or equal depth hides / clashes with a promoted method; the generator never creates such
     clashes, so only methods are searched here -/
-def findMethod (P : Program) (id : Nat) (name : String) : Option (List Nat × MethodDecl) :=
-  let rec go (fuel d : Nat) : Option (List Nat × MethodDecl) :=
+def findMethod (P : Program) (id : Nat) (name : String) : Option (List PStep × MFound) :=
+  let rec go (fuel d : Nat) : Option (List PStep × MFound) :=
     match fuel with
     | 0 => none
     | fuel+1 =>
@@ -491,16 +522,12 @@ def findMethod (P : Program) (id : Nat) (name : String) : Option (List Nat × Me
       | _ => none
   go (P.types.size + 1) 0
 
-def ifaceMethods (P : Program) (id : Nat) : List String :=
-  match P.types[id]? with
-  | some ⟨_, .iface ms⟩ => ms
-  | _ => []
-
 /-- does dynamic type `t` have method `name` in its method set? -/
 def hasMethod (P : Program) (t : Ty) (name : String) : Bool :=
   match t with
   | .named id => match findMethod P id name with
-    | some (_, m) => !m.ptrRecv
+    | some (path, .decl m) => !m.ptrRecv || path.contains .deref     -- through an embedded *T the pointer methods count
+    | some (_, .viaIface) => true
     | none => false
   | .ptr (.named id) => (findMethod P id name).isSome
   | .rtErr => name == "Error" || name == "RuntimeError"
@@ -700,10 +727,91 @@ def commaOk (ok : Bool) (v : Val) (zero : Val) (two : Bool) (failMsg : String) :
   else if ok then pure (.vals [v])
   else rtPanicM failMsg
 
-/-- the receiver to pass for a method found at `path` below a pointer `p` -/
-def recvFromPtr (p : Ptr) (path : List Nat) (m : MethodDecl) : M Val := do
-  let q : Ptr := (p.1, p.2 ++ path)
-  if m.ptrRecv then pure (.ptr (some q)) else load q
+/-- where a selector walk currently is: inside a value that is not addressable, or at an addressable place -/
+inductive Loc where
+  | val (v : Val)
+  | ptr (p : Ptr)
+deriving Inhabited
+
+def Loc.get : Loc → M Val
+  | .val v => pure v
+  | .ptr p => load p
+
+def nilDeref {α : Type} : M α := rtPanicM "invalid memory address or nil pointer dereference"
+
+/-- follow a selector path (fields of embedded structs, dereferences of embedded pointers) -/
+def walk : Loc → List PStep → M Loc
+  | l, [] => pure l
+  | .ptr p, .fld i :: rest => walk (.ptr (p.1, p.2 ++ [i])) rest
+  | .val v, .fld i :: rest =>
+    match v.elems with
+    | some l => match l[i]? with
+      | some c => walk (.val c) rest
+      | none => stuck "walk: field index"
+    | none => stuck "walk: not a struct"
+  | l, .deref :: rest => do
+    match ← l.get with
+    | .ptr (some q) => walk (.ptr q) rest
+    | .ptr none => nilDeref
+    | _ => stuck "walk: pointer expected"
+
+section
+variable (P : Program)
+
+/-- resolve a method selector to (function id, receiver value): promotion through embedded structs, embedded pointers and
+    embedded interfaces; interface values dispatch on their dynamic type.  `fuel` bounds the chain of interface hops. -/
+def resolve : Nat → Ty → Loc → String → M (Nat × Val)
+  | 0, _, _, _ => stuck "resolve: out of fuel"
+  | fuel+1, t, loc, name => do
+    -- the struct type whose method set is searched, and the location of that struct
+    let target : Option (Nat × Loc) ← (match t with
+      | .ptr (.named id) => do
+        match ← loc.get with
+        | .ptr (some p) => pure (some (id, Loc.ptr p))
+        | .ptr none => pure none
+        | _ => stuck "resolve: pointer receiver expected"
+      | .named id => pure (some (id, loc))
+      | _ => stuck "resolve: receiver type")
+    match t, target with
+    | .ptr (.named id), none =>
+      -- a nil *T receiver is fine for T's own pointer-receiver methods
+      match findMethod P id name with
+      | some ([], .decl m) => if m.ptrRecv then pure (m.func, Val.ptr none) else nilDeref
+      | _ => nilDeref
+    | _, none => stuck "resolve"
+    | _, some (id, sloc) =>
+      if isIface P id then do
+        match ← sloc.get with
+        | .iface (some (t', v')) => resolve fuel t' (.val v') name
+        | .iface none => nilDeref
+        | _ => stuck "resolve: interface value expected"
+      else
+        match findMethod P id name with
+        | none => stuck s!"no method {name}"
+        | some (path, found) => do
+          let l ← walk sloc path
+          match found with
+          | .decl m =>
+            if m.ptrRecv then
+              match l with
+              | .ptr q => pure (m.func, Val.ptr (some q))
+              | .val _ => stuck "pointer-receiver method on a value that is not addressable"
+            else do
+              let r ← l.get
+              pure (m.func, r)
+          | .viaIface => do
+            match ← l.get with
+            | .iface (some (t', v')) => resolve fuel t' (.val v') name
+            | .iface none => nilDeref
+            | _ => stuck "resolve: embedded interface value expected"
+
+/-- does `x.name` (x of struct type `id`) need the address of `x`? -/
+def needsAddr (id : Nat) (name : String) : Bool :=
+  match findMethod P id name with
+  | some (path, .decl m) => m.ptrRecv && !path.contains .deref
+  | _ => false
+
+end
 
 /-- decode the string `s` into `(byte index, rune)` pairs as `for i, r := range s` sees them -/
 def runesOf : Nat → Nat → List Nat → List (Nat × Nat)
@@ -735,6 +843,21 @@ def resultsKey : Nat := 1000000007
 
 section
 variable (P : Program)
+
+/-- the receiver operand of `recv.name`: its address when a pointer-receiver method is selected on an addressable struct
+    operand, else its value -/
+def recvLoc (recv : Expr) (t : Ty) (name : String) (env : Env) : M Loc := do
+  match t with
+  | .named id =>
+    if !isIface P id && needsAddr P id name then do
+      let p ← evalAddr recv env
+      pure (.ptr p)
+    else do
+      let v ← eval1 recv env
+      pure (.val v)
+  | _ => do
+    let v ← eval1 recv env
+    pure (.val v)
 
 def stepExpr (e : Expr) (env : Env) : M Ret := do
   match e with
@@ -813,58 +936,29 @@ def stepExpr (e : Expr) (env : Env) : M Ret := do
     let r ← callVal fv vs
     pure (.vals r)
   | .mcall recv t name args => do
-    match t with
-    | .ptr (.named id) =>
-      match findMethod P id name with
-      | none => stuck s!"no method {name}"
-      | some (path, m) =>
-        match ← eval1 recv env with
-        | .ptr (some p) => do
-          let r ← recvFromPtr p path m
-          let vs ← evalArgs env args
-          pure (.vals (← callVal (.func (some (.top, m.func, [], 0))) (r :: vs)))
-        | .ptr none =>
-          if m.ptrRecv && path.isEmpty then do
-            let vs ← evalArgs env args
-            pure (.vals (← callVal (.func (some (.top, m.func, [], 0))) (.ptr none :: vs)))
-          else rtPanicM "invalid memory address or nil pointer dereference"
-        | _ => stuck "mcall: pointer receiver expected"
-    | .named id =>
-      match findMethod P id name with
-      | none => stuck s!"no method {name}"
-      | some (path, m) =>
-        if m.ptrRecv then do
-          let p ← evalAddr recv env
-          let vs ← evalArgs env args
-          pure (.vals (← callVal (.func (some (.top, m.func, [], 0))) (.ptr (some (p.1, p.2 ++ path)) :: vs)))
-        else do
-          let v ← eval1 recv env
-          match getPath v path with
-          | some r => do
-            let vs ← evalArgs env args
-            pure (.vals (← callVal (.func (some (.top, m.func, [], 0))) (r :: vs)))
-          | none => stuck "mcall: receiver path"
-    | _ => stuck "mcall: receiver type"
+    let loc ← recvLoc P recv t name env
+    let (fid, r) ← resolve P (P.types.size + 2) t loc name
+    let vs ← evalArgs env args
+    pure (.vals (← callVal (.func (some (.top, fid, [], 0))) (r :: vs)))
   | .icall recv name args => do
     match ← eval1 recv env with
-    | .iface none => rtPanicM "invalid memory address or nil pointer dereference"
-    | .iface (some (.named id, v)) =>
-      match findMethod P id name with
-      | some (path, m) =>
-        match getPath v path with
-        | some r => do
-          let vs ← evalArgs env args
-          pure (.vals (← callVal (.func (some (.top, m.func, [], 0))) (r :: vs)))
-        | none => stuck "icall: receiver path"
-      | none => stuck s!"icall: no method {name}"
-    | .iface (some (.ptr (.named id), .ptr (some p))) =>
-      match findMethod P id name with
-      | some (path, m) => do
-        let r ← recvFromPtr p path m
-        let vs ← evalArgs env args
-        pure (.vals (← callVal (.func (some (.top, m.func, [], 0))) (r :: vs)))
-      | none => stuck s!"icall: no method {name}"
+    | .iface none => nilDeref
+    | .iface (some (t', v')) => do
+      let (fid, r) ← resolve P (P.types.size + 2) t' (.val v') name
+      let vs ← evalArgs env args
+      pure (.vals (← callVal (.func (some (.top, fid, [], 0))) (r :: vs)))
     | _ => stuck "icall: receiver"
+  | .mval recv t name => do
+    let loc ← recvLoc P recv t name env
+    let (fid, r) ← resolve P (P.types.size + 2) t loc name
+    pure (.vals [.bound fid r])
+  | .imval recv name => do
+    match ← eval1 recv env with
+    | .iface none => nilDeref
+    | .iface (some (t', v')) => do
+      let (fid, r) ← resolve P (P.types.size + 2) t' (.val v') name
+      pure (.vals [.bound fid r])
+    | _ => stuck "imval: receiver"
   | .structLit fs => do
     let vs ← evalList env fs
     pure (.vals [.struct vs])
@@ -908,18 +1002,17 @@ def stepExpr (e : Expr) (env : Env) : M Ret := do
       | some path =>
         match ← eval1 e env with
         | .ptr (some p) => do
-          let v ← load (p.1, p.2 ++ path)
-          pure (.vals [v])
-        | .ptr none => rtPanicM "invalid memory address or nil pointer dereference"
+          let l ← walk (.ptr p) path
+          pure (.vals [← l.get])
+        | .ptr none => nilDeref
         | _ => stuck "sel: pointer expected"
     | .named id =>
       match findField P id name with
       | none => stuck s!"no field {name}"
       | some path => do
         let v ← eval1 e env
-        match getPath v path with
-        | some r => pure (.vals [r])
-        | none => stuck "sel: path"
+        let l ← walk (.val v) path
+        pure (.vals [← l.get])
     | _ => stuck "sel: type"
   | .index k e i => do
     match k with
@@ -1054,15 +1147,21 @@ def stepAddr (e : Expr) (env : Env) : M Ret := do
       | none => stuck s!"no field {name}"
       | some path =>
         match ← eval1 e env with
-        | .ptr (some p) => pure (.ptr (p.1, p.2 ++ path))
-        | .ptr none => rtPanicM "invalid memory address or nil pointer dereference"
+        | .ptr (some p) => do
+          match ← walk (.ptr p) path with
+          | .ptr q => pure (.ptr q)
+          | .val _ => stuck "addr sel"
+        | .ptr none => nilDeref
         | _ => stuck "addr sel: pointer expected"
     | .named id =>
       match findField P id name with
       | none => stuck s!"no field {name}"
       | some path => do
+        -- through an embedded pointer the operand itself need not be addressable, but generated operands always are
         let p ← evalAddr e env
-        pure (.ptr (p.1, p.2 ++ path))
+        match ← walk (.ptr p) path with
+        | .ptr q => pure (.ptr q)
+        | .val _ => stuck "addr sel"
     | _ => stuck "addr sel: type"
   | .index k e i => do
     match k with
@@ -1421,7 +1520,10 @@ def runDefers (depth : Nat) : List (Val × List Val) → Option Val → M (Optio
     | some (.panic v) => runDefers depth rest (some v)      -- a new panic replaces the one in flight
     | some a => throw a
 
-def stepCall (f : Val) (args : List Val) : M Ret := do
+def stepCall (f0 : Val) (args0 : List Val) : M Ret := do
+  let (f, args) : Val × List Val := match f0 with
+    | .bound fid r => (Val.func (some (.top, fid, [], 0)), r :: args0)
+    | _ => (f0, args0)
   match f with
   | .func none => rtPanicM "invalid memory address or nil pointer dereference"
   | .func (some (.yield, bid, env, tok)) =>
